@@ -9,6 +9,7 @@ import Autog.Lemmas.DfsBreakerTotal
 import Autog.Lemmas.ComponentsTotal
 import Autog.Lemmas.TightTreeFuel
 import Autog.Lemmas.InitDfsFuel
+import Autog.Lemmas.BlockWide
 /-! # C01 — Layout always returns
 
     PARTIAL. In the composed model `layoutModel` (Autog/Model/Pipeline.lean) every explicit `panic` of the modelled code, every
@@ -111,6 +112,10 @@ theorem C01_tight_tree_never_out_of_fuel : type_of% @tightTreeRun_total := @tigh
 
 theorem C01_init_positions_total : type_of% @TreeInitDfs.initPositions_total := @TreeInitDfs.initPositions_total
 theorem C01_init_walk_never_out_of_fuel : type_of% @TreeInitDfs.initDfs_total := @TreeInitDfs.initDfs_total
+
+/-- SinkColoring's block building: the climb of `setColor` goes one band up per call and so returns within `len(layers) + 2` -/
+theorem C01_setColor_total : type_of% @setColor_total := @setColor_total
+theorem C01_block_building_total : type_of% @scBlocks_total := @scBlocks_total
 
 theorem C01_cycle_test_total : type_of% @hasCycles_total := @hasCycles_total
 /-- the longest-path traversal returns on every well-formed acyclic state -/
